@@ -254,8 +254,8 @@ func (a *otherContactsAction) resolveRecipients(run flows.Run, logEvent flows.Ev
 		}
 	}
 
-	// evaluate contact query
-	contactQuery, _ := run.EvaluateTemplateText(a.ContactQuery, flows.ContactQueryEscaping, true, logEvent)
+	// evaluate contact query - which we don't truncate because a cut inside a quoted value changes what the query means
+	contactQuery, _ := run.EvaluateTemplateText(a.ContactQuery, flows.ContactQueryEscaping, false, logEvent)
 	contactQuery = strings.TrimSpace(contactQuery)
 
 	return groupRefs, contactRefs, contactQuery, urnList, nil
